@@ -25,7 +25,7 @@
 (***************************************************************************)
 EXTENDS Integers, Sequences, FiniteSets, TLC, Json
 
-CONSTANTS Mode,      \* "single" | "pair" | "list" | "all" : which families of vectors Init enumerates
+CONSTANTS Mode,      \* "single" | "pair" | "list" | "mix" | "all" : which families of vectors Init enumerates
           Big,       \* FALSE: quick bound, TRUE: thorough bound
           PairScopes,\* Mode "pair": the rule scopes enumerated (a subset of {"trace", "span"})
           Faithful   \* TRUE: the graph also contains the known deviation successors
@@ -405,10 +405,33 @@ ListVecs ==
   {[rules |-> rs, trace |-> tr] : rs \in {<<>>} \cup {<<r>> : r \in ListRules} \cup {<<r1, r2>> : r1 \in ListRules, r2 \in ListRules},
                                   tr \in ListTraces}
 
+(* Fields lists that mix a plain and a root.-prefixed name, in both orders,  *)
+(* over traces of three spans (the root and two children, the root arriving *)
+(* first, second or - through EvalRev - last) in which the field is absent, *)
+(* matching ("a") or non-matching ("b") on every span independently; the    *)
+(* root may also carry g.  Both scopes; alone or followed by a second       *)
+(* condition.  "The first field that exists on any given span is used": a   *)
+(* span without the plain field falls back to the root's value, a span that *)
+(* has it uses its own.                                                     *)
+MixFields == {<<Fld("f"), RFld("f")>>, <<RFld("f"), Fld("f")>>, <<Fld("f"), RFld("g")>>, <<RFld("g"), Fld("f")>>}
+MixTemplates ==
+  {<<"=", "none", S("a")>>, <<"not-exists", "none", NoVal>>, <<"!=", "string", S("a")>>}
+  \cup (IF Big THEN {<<"exists", "none", NoVal>>, <<"does-not-contain", "none", S("a")>>} ELSE {})
+MixConds == {C1(fs, t[1], t[2], t[3]) : fs \in MixFields, t \in MixTemplates}
+MixCondSeqs == {<<c>> : c \in MixConds}
+               \cup (IF Big THEN {<<c, C1(<<Fld("f")>>, "exists", "none", NoVal)>> : c \in MixConds} ELSE {})
+MixVals == {Absent, S("a"), S("b")}
+MixVecs ==
+  {[rules |-> << Rule(sc, cs, TRUE, 0, FALSE) >>,
+    trace |-> [spans |-> [i \in 1 .. 3 |-> [f |-> fv[i], g |-> IF i = root THEN rg ELSE Absent]], root |-> root]]
+     : sc \in {"trace", "span"}, cs \in MixCondSeqs, fv \in [1 .. 3 -> MixVals],
+       rg \in (IF Big THEN MixVals ELSE {Absent, S("a")}), root \in (IF Big THEN {1, 2, 3} ELSE {1, 2})}
+
 Vecs == CASE Mode = "single" -> SingleVecs
           [] Mode = "pair"   -> PairVecs
           [] Mode = "list"   -> ListVecs
-          [] Mode = "all"    -> SingleVecs \cup PairVecs \cup ListVecs
+          [] Mode = "mix"    -> MixVecs
+          [] Mode = "all"    -> SingleVecs \cup PairVecs \cup ListVecs \cup MixVecs
 
 ---------------------------------------------------------------------------
 Init == /\ vec \in {v \in Vecs : VecDefined(v)}
